@@ -1,4 +1,5 @@
 import TracklibVerif.Lemmas.MapMatchSound
+import TracklibVerif.Lemmas.MapMatchViterbi
 /-! # C10 — map-matched positions lie on a real edge within the search radius
 
 Property theorems only (helpers in `Lemmas/MapMatch.lean`, `Lemmas/MapMatchSound.lean`; they rest on the C20
@@ -166,6 +167,27 @@ rows are non-empty by T1) never makes the backward step fail. -/
 theorem decoder_in_range_total (ss : List (List (State α))) (idx : List Nat)
     (h : ∀ (k : Nat) (l : List (State α)), ss[k]? = some l → idx[k]?.getD 0 < l.length) :
     ∃ inf, inferAll ss idx = .ok inf := inferAll_total ss idx h
+
+/-- T2c `viterbi_decoder_total`: with the decoder of C09 (`Model/Viterbi`: first-minimum scan with `best_ant = 0`,
+back-pointers, path from any valid last state — `np.argmin` of the non-empty last row), over ANY cost tables whose
+row sizes are the sizes of the candidate lists, the backward step of `mapOnNetwork` never fails: the candidate lists
+are non-empty (T1), so every decoded index is in range. No assumption on the costs. -/
+theorem viterbi_decoder_total {β : Type} [LinearOrder β] (ss : List (List (State α)))
+    (t : TV.Viterbi.Tables β) (hpos : ∀ k, 0 < t.n k)
+    (hn : ∀ (k : Nat) (l : List (State α)), ss[k]? = some l → t.n k = l.length)
+    (last : Nat) (hl : last < t.n (ss.length - 1)) :
+    ∃ inf, inferAll ss ((List.range ss.length).map (TV.Viterbi.back t (ss.length - 1) last)) = .ok inf := by
+  apply inferAll_total
+  intro k l hk
+  have hk' : k < ss.length := by
+    rcases Nat.lt_or_ge k ss.length with h | h
+    · exact h
+    · rw [List.getElem?_eq_none h] at hk; cases hk
+  have e : ((List.range ss.length).map (TV.Viterbi.back t (ss.length - 1) last))[k]? =
+      some (TV.Viterbi.back t (ss.length - 1) last k) := by
+    simp [hk']
+  rw [e, Option.getD_some, ← hn k l hk]
+  exact TV.Viterbi.back_in_range t hpos (ss.length - 1) last hl k (by omega)
 
 /-! Non-vacuity, evaluated on the model over `Rat`: edge 0 = `(0,0)-(8,0)` (horizontal), edge 1 = `(8,0)-(8,6)`
 (vertical); observation `(3,4)` with radius 5 → candidate on edge 0 at `(3,0)`, distances 3 and 5 (length 8). -/
